@@ -119,23 +119,43 @@ _state = {}
 
 
 def setup(rng):
+    """The long-lived process never asks the library anything about a class (not even `structure()`): the list of
+    kit classes, the instances of their structures and everything else that needs the library is computed in
+    forked children, so that every history — and every "fresh interpreter" answer — starts from a process in
+    which no class has been used yet."""
     if "classes" in _state:
         return _state
-    import random
-    r = random.Random(606)
-    classes = boot.kit_classes()
-    words = []
-    for c in classes:
-        inst, _ = gen.instantiate(r, c.structure(), runlen=r.choice([2, 5, 9]))
-        words.append(gen.rot(inst + gen.rnd(r, 7), r.randrange(0, 9)))
-    # plasmids carrying two instances of the structure: which one is reported must not depend on the past
-    doubles = []
-    for c in classes:
-        i1, _ = gen.instantiate(r, c.structure(), runlen=r.choice([2, 4]))
-        i2, _ = gen.instantiate(r, c.structure(), runlen=r.choice([2, 4]))
-        doubles.append(i1 + gen.rnd(r, 5) + i2 + gen.rnd(r, 6))
+    import asm
+
+    def names():
+        return [asm.cls_name(c) for c in boot.kit_classes()]
+    classes = [asm.cls_by_name("kit:" + n.split(":", 1)[1]) if n.startswith("kit:") else asm.cls_by_name(n)
+               for n in forked(names)]
+
+    def texts():
+        import random
+        r = random.Random(606)
+        words, doubles = [], []
+        for c in classes:
+            inst, _ = gen.instantiate(r, c.structure(), runlen=r.choice([2, 5, 9]))
+            words.append(gen.rot(inst + gen.rnd(r, 7), r.randrange(0, 9)))
+        # plasmids carrying two instances of the structure: which one is reported must not depend on the past
+        for c in classes:
+            i1, _ = gen.instantiate(r, c.structure(), runlen=r.choice([2, 4]))
+            i2, _ = gen.instantiate(r, c.structure(), runlen=r.choice([2, 4]))
+            doubles.append(i1 + gen.rnd(r, 5) + i2 + gen.rnd(r, 6))
+        return [words, doubles]
+    words, doubles = forked(texts)
     _state.update(classes=classes, words=words, doubles=doubles, fresh={})
     return _state
+
+
+def in_child(fn):
+    """run `fn` (which may ask the library about classes) in a forked child and return its JSON-able result"""
+    out = forked(fn)
+    if isinstance(out, list) and out and out[0] == "child-exception":
+        raise RuntimeError("child: {} {}".format(out[1], out[2]))
+    return out
 
 
 def fresh_answer(S, ref, word, topo="C"):
@@ -174,19 +194,31 @@ def check_case(ctx, case):
     ctx.case(case, nontrivial=len({json.dumps(r) for r in refs}) > 1)
     # model: one class table per history (dynamic subclasses share their base's structure)
     table, idx = [], []
+
+    def fields():
+        out = {}
+        for ref in refs:
+            if isinstance(ref, list) and ref[0] in ("sig", "sigsame", "cut"):
+                cls = resolve(classes, ref)
+            else:
+                cls = classes[ref[1]] if isinstance(ref, list) else classes[ref]
+            out[json.dumps(ref)] = "^".join(impl.cls_fields(cls))
+        return out
+    fld = in_child(fields)
     for ref in refs:
-        if isinstance(ref, list) and ref[0] in ("sig", "sigsame", "cut"):
-            cls = resolve(classes, ref)
-        else:
-            cls = classes[ref[1]] if isinstance(ref, list) else classes[ref]
         key = json.dumps(ref)
         if key not in [t[0] for t in table]:
-            table.append((key, "^".join(impl.cls_fields(cls))))
+            table.append((key, fld[key]))
         idx.append([t[0] for t in table].index(key))
     line_classes = "|".join(t[1] for t in table)
     line_q = ";".join("{}:{}:{}".format(i, w, t) for i, (_, w, t) in zip(idx, hist))
     ctx.op(("RAW", "\t".join(["HIST", line_classes, line_q])), case,
            reply="".join("1" if g[0] == "valid" else "0" for g in got))
+
+
+def inst_of(classes, ref, runlen, seed):
+    import random
+    return in_child(lambda: gen.instantiate(random.Random(seed), resolve(classes, ref).structure(), runlen=runlen)[0])
 
 
 def run(ctx):
@@ -231,14 +263,14 @@ def run(ctx):
         hist = []
         for _ in range(rng.randint(2, 3)):
             ref = ["sig", a, gen.rnd(rng, k), gen.rnd(rng, k)]
-            inst, _ = gen.instantiate(rng, resolve(classes, ref).structure(), runlen=rng.choice([2, 5]))
+            inst = inst_of(classes, ref, rng.choice([2, 5]), rng.getrandbits(32))
             hist.append([ref, gen.rot(inst + gen.rnd(rng, 6), rng.randrange(8))])
         if rng.random() < 0.5:
             hist.append([hist[0][0], hist[-1][1]])      # the first type asked about the last record
         ctx.guard(check_case, {"history": hist})
         # the kit type first, then a variant that keeps its name
         ref = ["sigsame", a, gen.rnd(rng, k), gen.rnd(rng, k)]
-        inst, _ = gen.instantiate(rng, resolve(classes, ref).structure(), runlen=3)
+        inst = inst_of(classes, ref, 3, rng.getrandbits(32))
         ctx.guard(check_case, {"history": [[a, words[a]], [ref, gen.rot(inst + gen.rnd(rng, 5), rng.randrange(6))],
                                            [ref, words[a]]]})
     # an ancestor is asked, then a brand-new subclass of a descendant that was never asked itself; and a type is
@@ -257,7 +289,7 @@ def run(ctx):
             others = [e for e in ("BsaI", "BsmBI", "BpiI", "SapI", "AarI") if e != str(classes[a].cutter)]
             ref = ["cut", a, rng.choice(others)]
             try:
-                inst, _ = gen.instantiate(rng, resolve(classes, ref).structure(), runlen=rng.choice([2, 5]))
+                inst = inst_of(classes, ref, rng.choice([2, 5]), rng.getrandbits(32))
             except Exception:  # noqa
                 continue
             w = gen.rot(inst + gen.rnd(rng, 6), rng.randrange(8))
@@ -266,7 +298,8 @@ def run(ctx):
     import typing_h as T
     for _ in range(ctx.budget(60, 1000)):
         a = rng.randrange(n)
-        w = T.inner_site_instance(rng, classes[a])
+        sd_ = rng.getrandbits(32)
+        w = in_child(lambda: T.inner_site_instance(__import__("random").Random(sd_), classes[a]))
         w = gen.rot(w, rng.randrange(len(w)))
         ctx.guard(check_case, {"history": [[a, w], [rng.choice([a, rng.randrange(n)]), w]]})
     # one plasmid object typed with a class and then with a related class while the first wrapper is alive
